@@ -87,6 +87,10 @@ PlanAxisOK(inSize, a, wq, Q, n, args, ws, first, last) ==
         \* the allocated window size covers every window (its exact value is an allocation detail)
         /\ ws >= 1
 
+\* the back-end in force in every phase of a call (convolution dispatch, premultiply, divide) is the one selected on the
+\* resizer -- also after reset_internal_buffers and on a clone (events and calls that do not carry it: no claim)
+BackendOK(s, e) == ("cpu" \in DOMAIN e /\ e.cpu >= 0 /\ "cpu" \in DOMAIN s.c) => e.cpu = s.c.cpu
+
 Ok(s, e) ==
     CASE e.k = "call" -> s.pc = "idle"
       [] e.k = "zero_noop" -> s.pc = "called" /\ s.c.kind = "zero"
@@ -94,6 +98,7 @@ Ok(s, e) ==
       [] e.k = "copy_fast" -> s.pc = "called" /\ s.c.kind = "ok" /\ IsCopy(s.c.box, s.c.Q, s.c.dw, s.c.dh)
       [] e.k = "dispatch" -> /\ s.pc = "called" /\ s.c.kind = "ok" /\ ~IsCopy(s.c.box, s.c.Q, s.c.dw, s.c.dh)
                              /\ e.alg = s.c.alg /\ (e.alg = "ss" => e.m = s.c.m) /\ e.alpha = s.c.useAlpha
+                             /\ BackendOK(s, e)
       [] e.k = "nearest" ->
             \/ (s.pc = "alg" /\ s.c.alg = "nearest" /\ e.sw = s.c.sw /\ e.sh = s.c.sh /\ e.dw = s.c.dw /\ e.dh = s.c.dh)
             \/ (s.pc = "ss2" /\ e.sw = s.c.sw /\ e.sh = s.c.sh /\ e.dw = s.tmp[1] /\ e.dh = s.tmp[2])
@@ -111,7 +116,7 @@ Ok(s, e) ==
             \/ (s.pc = "planned" /\ s.plan = "both"
                  /\ (IF s.c.u8 THEN TempOK(s, e, "conv", s.win[2] - s.win[1], s.c.dh)
                               ELSE TempOK(s, e, "conv", s.c.dw, s.win[4] - s.win[3])))
-      [] e.k = "premul" -> s.pc = "al2"
+      [] e.k = "premul" -> s.pc = "al2" /\ BackendOK(s, e)
       [] e.k = "conv_begin" ->
             /\ (s.pc = "doconv" \/ (AtConv(s) /\ ~WantsAlpha(s)))
             /\ e.cw = s.cur.w /\ e.ch = s.cur.h /\ e.dw = s.c.dw /\ e.dh = s.c.dh
@@ -131,7 +136,7 @@ Ok(s, e) ==
                   /\ e.off * s.cur.Q = s.cur.box[2])            \* rows start at the (integer) crop top
             \/ (s.pc = "planned" /\ s.plan = "v" /\ e.axis = 1 /\ e.w = s.c.dw /\ e.h = s.c.dh
                   /\ e.off * s.cur.Q = s.cur.box[1])
-      [] e.k = "divide" -> s.usedAlpha /\ (s.pc = "passed" \/ (s.pc = "planned" /\ s.plan = "nopass"))
+      [] e.k = "divide" -> s.usedAlpha /\ (s.pc = "passed" \/ (s.pc = "planned" /\ s.plan = "nopass")) /\ BackendOK(s, e)
       [] e.k = "ret" ->
             \/ s.pc = "done"
             \/ (~s.usedAlpha /\ (s.pc = "passed" \/ (s.pc = "planned" /\ s.plan = "nopass")))
